@@ -13,18 +13,19 @@
 (* the known finding D6 (a zero-duration event at an instant where one     *)
 (* positive span ends and another begins); with FALSE, TLC exhibits it.    *)
 (***************************************************************************)
-EXTENDS CallStack, TLC
+EXTENDS CallStack, TLC, Json
 
 CONSTANTS N, T, Builder, ExcludeTouch, ExcludeZeroPairs,
           U,          \* ticks per microsecond: spans start on whole microseconds (multiples of U) and end on any tick
+          EmitOn,     \* TRUE: print every finished family with the order in which its endpoints were processed (replayed into sort_events)
           TruncEnd    \* TRUE: the close endpoint is computed as ts + int(dur) as the old builder did before fix 1dc194b (D22)
 
 Spans == { sp \in [ts : 0..T, dur : 0..T] : sp.ts + sp.dur <= T }
 
-VARIABLES fam, remaining, st, last, phase
-vars == <<fam, remaining, st, last, phase>>
+VARIABLES fam, remaining, st, last, phase, order
+vars == <<fam, remaining, st, last, phase, order>>
 S == Range(fam)
-Less(x, y) == IF Builder = "new" THEN LessNew(x, y) ELSE LessOld(x, y)
+Less(x, y) == IF Builder = "key" THEN LessKey(S, x, y) ELSE IF Builder = "new" THEN LessNew(x, y) ELSE LessOld(x, y)
 
 \* the endpoints the builder sorts: exact, or with the close instant truncated to whole microseconds (pre-fix old builder)
 EP(F) == IF TruncEnd
@@ -33,18 +34,18 @@ EP(F) == IF TruncEnd
          ELSE Endpoints(F)
 
 \* the family is built span by span (ids = positions), only properly nested families continue: every family of at most N spans is reached
-Init == fam = <<>> /\ remaining = {} /\ st = MachInit /\ last = [id |-> 0, kind |-> "none", top |-> 0] /\ phase = "build"
+Init == fam = <<>> /\ remaining = {} /\ st = MachInit /\ last = [id |-> 0, kind |-> "none", top |-> 0] /\ phase = "build" /\ order = <<>>
 AddSpan == /\ phase = "build" /\ Len(fam) < N
            /\ \E t \in { x \in 0..T : x % U = 0 }, d \in 0..T :
                  /\ t + d <= T
                  /\ Laminar(Range(fam) \cup {[id |-> Len(fam) + 1, ts |-> t, dur |-> d]}) = TRUE     \* "= TRUE": evaluate as a value, do not split the action on the disjunctions inside
                  /\ fam' = Append(fam, [id |-> Len(fam) + 1, ts |-> t, dur |-> d])
-           /\ UNCHANGED <<remaining, st, last, phase>>
+           /\ UNCHANGED <<remaining, st, last, phase, order>>
 Start == /\ phase = "build" /\ Len(fam) >= 1
          /\ (ExcludeTouch => ~ZeroAtTouch(Range(fam)))
          /\ (ExcludeZeroPairs => ~ZeroPair(Range(fam)))
          /\ remaining' = EP(Range(fam)) /\ phase' = "run"
-         /\ UNCHANGED <<fam, st, last>>
+         /\ UNCHANGED <<fam, st, last, order>>
 
 Minimal(e) == \A r \in remaining \ {e} : ~Less(r, e)
 Step == /\ phase = "run" /\ remaining # {}
@@ -53,19 +54,24 @@ Step == /\ phase = "run" /\ remaining # {}
               /\ st' = MachStep(st, e)
               /\ last' = [id |-> e.id, kind |-> e.kind, top |-> IF Len(st.stack) = 0 THEN Root ELSE st.stack[Len(st.stack)]]
               /\ remaining' = remaining \ {e}
+              /\ order' = Append(order, e)
         /\ UNCHANGED <<fam, phase>>
-Finish == /\ phase = "run" /\ remaining = {} /\ phase' = "done" /\ UNCHANGED <<fam, remaining, st, last>>
+Finish == /\ phase = "run" /\ remaining = {} /\ phase' = "done" /\ UNCHANGED <<fam, remaining, st, last, order>>
 Next == AddSpan \/ Start \/ Step \/ Finish
 Spec == Init /\ [][Next]_vars
 
 \* for the old comparator the "sic" branch answers 0 in one direction only; symmetrised, it must still be a strict total order
-LessSym(x, y) == IF Builder = "new" THEN LessNew(x, y) ELSE (CmpOld(x, y) < 0 \/ CmpOld(y, x) > 0)
+LessSym(x, y) == IF Builder = "key" THEN LessKey(S, x, y) ELSE IF Builder = "new" THEN LessNew(x, y) ELSE (CmpOld(x, y) < 0 \/ CmpOld(y, x) > 0)
 TotalOrder == (phase = "run" /\ remaining = EP(S)) => IsStrictTotal(LessSym, EP(S))
 Sortable == (phase = "run" /\ remaining # {}) => \E e \in remaining : Minimal(e)
 \* a close pops its own event (or one with the same span: swapping identical spans is harmless)
 LIFO == last.kind = "close" =>
            \/ last.top = last.id
            \/ (last.top # Root /\ \E a, b \in S : a.id = last.id /\ b.id = last.top /\ SameSpan(a, b))
+\* the key order never contradicts the pairwise comparator on ADJACENT endpoints: the builder re-checks its sorted array with _less_than
+\* (is_events_sorted) and raises if a neighbouring pair is out of order
+AdjacentLess == \A k \in 1..(Len(order) - 1) : LessNew(order[k], order[k + 1])
+Emit == (EmitOn /\ phase = "done") => PrintT("@@E " \o ToJson([fam |-> fam, order |-> order, par |-> st.par, dep |-> st.dep]))
 TreeOK == phase = "done" =>
            /\ EveryEventOnce(S, st.par)
            /\ PositiveParents(S, st.par)
